@@ -185,7 +185,7 @@ FS10B ==
    is the value of `common`), id = the variant.                               *)
 AllMods   == <<"ma", "mb", "mc", "md", "me">>
 ModPos(m) == CHOOSE k \in DOMAIN AllMods : AllMods[k] = m
-ValKinds  == {"objv", "lstv", "mapv", "strv", "null", "bool", "zero"}
+ValKinds  == {"objv", "lstv", "mapv", "strv", "null", "bool", "zero", "cnt" (* round 4 (C11): NCnt *)}
 NVal(m, kd) == m \o "_" \o kd
 SVals(m, variant) == [op |-> "vals", n |-> ToString(ModPos(m)), id |-> variant, form |-> ""]
 ValNames(m) == {NCommon} \cup {NVal(m, kd) : kd \in ValKinds}
@@ -236,6 +236,36 @@ SpellOf(kd, m) == CASE kd = "str" -> "'" \o m \o "'"
 UserSpell == [sp \in {SpellOf(kd, m) : kd \in SpellKinds, m \in Range(AllMods)} |->
                 CHOOSE m \in Range(AllMods) : \E kd \in SpellKinds : SpellOf(kd, m) = sp]
 (* ---- Round 3 (C11) end ---------------------------------------------------- *)
+
+(* ---- Round 4 (C11) begin: a public definition that is reassigned -------------
+   The statement `vals` also stands for
+     def m_cnt = 0                 (NCnt: kind "cnt" of ValKinds)
+   and m_bump() of a C11 module reassigns it next to the private state:
+     _m_st[0] = _m_st[0] + 1; m_cnt = m_cnt + 1
+   so the module's own m_cnt is always the number of bumps (Session: ctr).
+   What an importer gets of it is its value at the moment of the binding:
+     * `require m unqualified` / an import list bind the VALUE the definition
+       has then (an int: a later bump does not show in the importer's name);
+     * `require m` / `as` bind a module object "exposing the module's public
+       top-level definitions": the definitions as they are when THIS require
+       binds - every qualified require makes the object anew, so the member
+       m->m_cnt of the object bound now is the module's value now, whatever an
+       earlier require (of this importer, of another module) bound, and
+       whatever an importer assigned to a member of ITS object (`m->m_cnt = 5`
+       changes that object, not the module, and no object bound later).
+   In a scope a sym m_cnt and a module object of m carry that value in the
+   field v.  nowvars = the module's top-level scope with m_cnt at its present
+   value (Session.NowVars).                                                  *)
+NCnt(m) == NVal(m, "cnt")
+CntOf(d, nowvars) == IF NCnt(d) \in DOMAIN nowvars THEN nowvars[NCnt(d)].v ELSE 0
+\* the module object a qualified require of d binds now
+ModOf(d, nowvars) == [ModV(d) EXCEPT !.v = CntOf(d, nowvars)]
+\* deviation (a configuration that substitutes it for Session.ModObj must
+\* violate BindsExactly): the object is made once, when the module has been
+\* loaded, and handed out by every require
+ModAtLoad(d, nowvars) == ModV(d)
+MSetVal == 5                          \* importer command  n->m_cnt = 5
+(* ---- Round 4 (C11) end ---------------------------------------------------- *)
 
 \* Bundled modules (src/ckl/modules/*.ckl) are found whatever the case of the
 \* name used (nodes.py: "modules/" + basename.lower()); the start-up code
@@ -305,7 +335,7 @@ Denotes(fs, form, nm, vars) ==
 \* and the value each of them gets: every listed alias of a symbol gets that
 \* symbol, the module object is the one instance of d
 BoundValue(fs, form, d, vars, name) ==
-  CASE form \in {"plain", "as", "asx" (* round 3 (C11) *)} -> ModV(d)
+  CASE form \in {"plain", "as", "asx" (* round 3 (C11) *)} -> ModOf(d, vars)  \* round 4 (C11): vars = the definitions as they are now
     [] form \in ImpForms -> vars[(CHOOSE p \in ImpListOf(form, d) : p[2] = name /\ p[1] \in DOMAIN vars)[1]]
     [] OTHER        -> vars[name]
 
